@@ -299,6 +299,10 @@ def run_batch(ctx, keys, cases, tag):
     lens = torch.tensor([k[1] for k in keys])
     use_lens = not all(k[1] == Tmax for k in keys) or rng.random() < 0.5
     lm = make_lm(V, Tmax, [k[5] for k in keys]) if mode != "none" else None
+    if mode == "none" and V <= 2 and rng.random() < 0.3:
+        # a language model with beta = 0 must be ignored altogether (whatever valid_mixture says)
+        lm = make_lm(V, Tmax, [rng.choice((0, 1)) for _ in keys])
+        mix = rng.random() < 0.5
     search = CTCPrefixSearch(W, beta, lm, mix)
     batch_case = dict(logits=[[[("%r" % x) for x in row] for row in fr] for fr in logits.tolist()], lens=lens.tolist() if use_lens else None,
                       width=W, beta=beta, valid_mixture=mix, lm_variants=[k[5] for k in keys] if lm is not None else None, tag=tag)
